@@ -88,6 +88,46 @@ M = {
     "C20-2": ("table-vs-table merged with dict.update", "defaults nested two tables deep", ""),
     "C20-3": ("leaf-equality shortcut guarded by the outer type only", "user array equal in value with other element types", "no such array in the alphabet -> [1.0, 2.0] option"),
     "C20-4": ("table test narrowed to tomlkit AbstractTable", "tables written non-contiguously / dotted (OutOfOrderTableProxy)", ""),
+    # ---- wave 3
+    "C01-5": ("sqlite insert_many rolls back the shared transaction when the batch raises", "unobserved single inserts, then a rejected bulk insert", "(caught by C04 only) -> C01 got acknowledged-then-rejected histories"),
+    "C01-6": ("peewee EventModel.from_event drops the days of the duration", "peewee single insert / upsert of an event lasting >= 24 h", ""),
+    "C02-5": ("memory delete removes an EQUAL event (list.remove) instead of the addressed id", "two live events with identical content", ""),
+    "C02-6": ("peewee delete combines its conditions with Python `and` (bucket condition dropped)", "delete with an id that is live in another bucket", "(caught by C04 only) -> C02 got the delete-with-foreign-id op"),
+    "C03-5": ("sqlite get_eventcount joins buckets without a join condition", "a second bucket with events in the window", ""),
+    "C03-6": ("memory buckets kept sorted on insert, reads no longer sort", "a replace that moves an event's timestamp past a neighbour", "contents were only ever built by inserts -> also through replace-by-id in reversed order"),
+    "C04-5": ("peewee caches the newest EventModel per bucket; delete() does not drop the entry", "replace_last, delete A's newest (highest id), insert into B (reuses the id), replace_last on A", ""),
+    "C05-5": ("Datastore.__getitem__ caches the handle before the existence check", "looking a missing id up twice", "operations on absent buckets never extended histories -> they do now"),
+    "C05-6": ("peewee update_bucket via one UPDATE built from a filtered dict ('null' data passes the filter)", "update that does not supply data", ""),
+    "C06-5": ("conditional_commit decides before adding the current statements", "insert_many of > 50 events followed directly by a crash", ""),
+    "C06-6": ("connection opened with isolation_level=None (native autocommit)", "crash between the two DELETEs of delete_bucket", ""),
+    "C07-5": ("memory insert_one allocates the id as len(bucket)", "an older event of the heartbeat bucket is deleted mid-stream, then an inserting and a merging heartbeat", "nothing ever deleted events mid-stream -> delete-oldest noise op, ids unique after the stream"),
+    "C07-6": ("sqlite replace_last matches WHERE starttime = max(starttime) unscoped", "another bucket's event starting at the same microsecond", ""),
+    "C08-5": ("heartbeat_reduce skips 'already covered' heartbeats before calling merge", "out-of-order input or negative durations", ""),
+    "C08-6": ("pulse window built as timedelta(milliseconds=int(pulsetime*1000))", "fractional pulsetimes such as 1.001 / sub-millisecond, gap exactly at the boundary", "pulsetimes were only 0, .5, 1, 1.5, 2 lattice units -> fractional-pulsetime boundary unit"),
+    "C09-5": ("filter_period_intersect no longer copies-by-sorting: the helper sorts the caller's lists", "input list not ascending by timestamp", ""),
+    "C09-6": ("period_union merges gaps <= 1 ms", "two intervals exactly 1 ms apart", "union ran on the 1 s lattice only in the quick tier -> also at 1 ms"),
+    "C10-5": ("flood returns early for pulsetime 0 (skipping the zero-duration filter)", "pulsetime 0 and a zero-length input event", ""),
+    "C10-6": ("flood reverses instead of sorting when first.timestamp > last.timestamp", "3+ events in a shuffled order whose first is later than its last", ""),
+    "C11-5": ("per-query memo of call results keyed by the call's source text", "the same call text twice with a variable in it rebound in between", "no program repeated a call text -> same-call-text-twice context"),
+    "C11-6": ("argument-count check counting only parameters without default, compared with !=", "find_bucket called with its optional hostname", ""),
+    "C12-5": ("memory get_events sorts the backing list in place and reverses it", "two events sharing a timestamp, two consecutive reads", "the seeded store had no tied timestamps -> ties added"),
+    "C12-6": ("query_bucket reads through storage_strategy.get_events (bypassing Bucket.get's ms rounding)", "zero-width / sub-millisecond windows", ""),
+    "C13-5": ("to_json_dict memoised; the id setter does not invalidate the memo", "serialise, assign the id, serialise again", "nothing was assigned after a serialisation -> single-attribute assignment sequences"),
+    "C13-6": ("timestamp setter skips astimezone(utc) when utcoffset() is falsy", "aware datetime in a DST zone whose offset is zero at that instant", "tzinfo was only required to have offset 0 -> must be UTC; zero-offset DST zone added"),
+    "C14-5": ("migration in two passes writes every bucket's events to the last bucket (stale variable)", ">= 2 legacy buckets, a non-last one with events", ""),
+    "C14-6": ("migration opens PeeweeStorage(testing=True) whatever the profile", "normal profile", ""),
+    "C15-5": ("covered part skipped in the same step via a second _split_event", "zero-length list-one event strictly inside a list-two event", ""),
+    "C15-6": ("deepcopy memo as a mutable default argument", "calling twice with the same list objects", "every call used fresh lists -> every call is repeated with the same objects (C09, C10, C15, C16)"),
+    "C16-5": ("groups keyed on hash(composite_key)", "values whose hashes coincide (-1 and -2)", "no such values in the alphabet -> added"),
+    "C16-6": ("sort_by_timestamp sorts on (timestamp, id)", "tied timestamps with a None id and an int id", "all events had id None -> mixed ids"),
+    "C17-5": ("_verify_bucket_exists behind an lru_cache", "query a bucket, delete it, query again on the same datastore", "texts only, no history -> query-after-deletion scenario"),
+    "C17-6": ("QString.parse cursor loop reads past the end", "string whose only closing quote is backslash-escaped at the end of the text", ""),
+    "C18-5": ("delete runs its flush check before the DELETE", "a delete > 10 s after the last flush", "the oracle accepted a flush anywhere inside the operation -> a single-event write must itself be durable"),
+    "C18-6": ("replace_last rebuilt on get_events (which commits and resets the clock) + replace", "replace_last > 10 s after the last flush", "same oracle revision"),
+    "C19-5": ("Rule.match looks a missing selected key up as ''", "select_keys hitting a missing key with a regex that matches the empty string", "no such regex in the alphabet -> '.*', '^$'"),
+    "C19-6": ("regex text stripped before compiling", "regex with leading/trailing whitespace", "no such regex -> ' '"),
+    "C20-5": ("an existing blank user file is treated as 'no config yet' and overwritten", "existing empty / whitespace-only file", ""),
+    "C20-6": ("_merge drops a non-table user value over a default table", "user scalar where the default has a table", ""),
 }
 
 
